@@ -55,7 +55,8 @@ def _hint_src(ns, al: str) -> str:
     a, opt = al.split(":")
     h = a
     return {"0": h, "1": h + " | None", "2": h + " | int", "3": h + " | int | None", "4": f"typing.Optional[{h}]",
-            "5": "None | " + h, "6": f"Annotated[int, {a}_obj]", "7": f"typing.Optional[typing.Optional[{h}]]"}[opt]
+            "5": "None | " + h, "6": f"Annotated[int, {a}_obj]", "7": f"typing.Optional[typing.Optional[{h}]]",
+            "8": f"typing.Union[int, {h}]", "9": f"typing.Union[None, float, {h}]"}[opt]
 
 
 def _hints_src(ns, s: str) -> str:
